@@ -188,7 +188,7 @@ class Monitor:
                 self.baseline[info.key] = now   # report every alteration once
 
     # ---- aliasing ------------------------------------------------------------------------------------------------
-    def check_alias(self, a, b, relation: str, info, detail=None) -> list[str]:
+    def check_alias(self, a, b, relation: str, info, detail=None, label: str = 'pair') -> list[str]:
         """no mutable object reachable from both; returns the paths (in ``a`` and in ``b``) of the shared objects"""
         ctx = self.ctx
         wa, wb = walk(a), walk(b)
@@ -216,7 +216,7 @@ class Monitor:
                 what = (f'{info.name}: {relation}: member {path} IS the class-level default object of {dkey}'
                         + (f' (its inner object {inner})' if inner else ''))
             else:
-                key = f'shared_object.{relation.split(":")[0].replace(" ", "_")}.{dm}'
+                key = f'shared_object.{label}.{dm}'
                 what = f'{info.name}: {relation}: both instances reach the same {type(obj).__name__} object at {path}'
             if key in reported:
                 continue
@@ -349,7 +349,7 @@ class Monitor:
         # frequent re-checks look at the class family (bases / subclasses: they share the descriptor objects); ALL classes are
         # re-checked once per class at the end of run_class and at the end of the worker
         family = [i for i in self.instantiable if issubclass(i.cls, cls) or issubclass(cls, i.cls)]
-        shared = self.check_alias(a1, a2, 'two fresh constructions', info)
+        shared = self.check_alias(a1, a2, 'two fresh constructions', info, label='two_fresh')
         ctx.case(('fresh', info.key))
         self.check_write_through(a1, [a2], 'two fresh constructions', info, rng, 'write_through.fresh', shared)
         self.recheck_baseline(f'deep mutation of a freshly constructed {info.name}', family)
@@ -385,9 +385,9 @@ class Monitor:
                     has_defaults = True
                 ctx.case(('parse', info.key, mode, names_absent if len(names_absent) <= 2 else (len(names_absent), hash(names_absent) % 97)))
                 relation = f'two parses of different nodes, absent={list(names_absent)}'
-                shared = self.check_alias(p1, p2, relation, info, {'absent': list(names_absent)})
+                shared = self.check_alias(p1, p2, relation, info, {'absent': list(names_absent)}, label='two_parses')
                 fresh = self.builder.construct(cls)
-                shared += self.check_alias(p1, fresh, 'a parsed and a fresh instance', info, {'absent': list(names_absent)})
+                shared += self.check_alias(p1, fresh, 'a parsed and a fresh instance', info, {'absent': list(names_absent)}, label='parsed_vs_fresh')
                 self.check_write_through(p1, [p2, fresh], relation, info, rng, 'write_through.parse', shared)
                 self.recheck_baseline(f'parsing a {info.name} with {list(names_absent)} absent and rewriting all members of the result', family)
         if has_defaults:
@@ -425,9 +425,18 @@ class Monitor:
                 before = canon(p)
                 if canon(c) != before and opname != 'update_from_other_container':
                     ctx.witness(f'copy_differs.{opname}.{info.name}', f'{opname} of a {info.name} is not equal to the original', {'class': info.key})
+                reach_c, reach_p = walk(c), walk(p)
+                common = [reach_c[o] for o in set(reach_c) & set(reach_p)]
+                ctx.count(f'copy.{opname}.objects_compared', len(reach_c))
                 n = self.mutate(c, rng)
                 ctx.count('mutate.writes', n)
                 now = canon(p)
+                if common and now == before:
+                    # reachable from both but the rewrite did not show it: still not an independent copy
+                    members = sorted({_decl_member(owner, member) for _path, _obj, owner, member in common})
+                    key = f'copy_alias.{opname}' if opname != 'deepcopy' else f'copy_alias.deepcopy.{info.name}'
+                    ctx.witness(key, f'{info.name}: the result of {opname}() and the original reach the same mutable object(s) (members {members[:6]})',
+                                {'class': info.key, 'members': members, 'found_by': 'aliasing walk'})
                 if now != before:
                     members = sorted({_blame_path(p, path) for path, _l, _r in canon_diff(before, now, limit=8)})
                     key = f'copy_alias.{opname}' if opname != 'deepcopy' else f'copy_alias.deepcopy.{info.name}'
